@@ -186,6 +186,7 @@ class Runner(object):
         self.var = entity_name
         self.executed = 0
         self.refused = 0
+        self.assumed = 0
 
     def run(self, head, cond, params, ids, groups):
         """head: 'x.id' or '(x.id, expr)'; cond: condition text or None.  Returns {id: row or ('error', family)};
@@ -226,11 +227,21 @@ class Runner(object):
                 return None
             except Failed:
                 pass
-            for rid in group:
+            # single rows; a group holds documents on which the path behaves alike, so once the first two rows fail in
+            # the same way and none succeeded, the rest of the group is taken to fail in that way too
+            seen = []
+            uniform = True
+            for n, rid in enumerate(group):
+                if uniform and len(seen) >= 2 and seen[0] == seen[1]:
+                    errors[rid] = seen[0]
+                    self.assumed += 1
+                    continue
                 try:
                     rows += attempt('x.id == rid_', {'rid_': rid})
+                    uniform = False
                 except Failed as e:
                     errors[rid] = str(e)
+                    seen.append(str(e))
         return {'rows': rows, 'errors': errors}
 
 
@@ -575,19 +586,22 @@ def run(ctx):
     if t['keyorder'] != sorted(t['keyorder']) or t['strlens'] != [len(k) for k in t['keyorder']]:
         raise MachineryError('KeyOrder / StrLens of JsonDoc.tla do not match Python')
     checked = selfcheck_json(t) + selfcheck_arrays(t)
-    counters = {'queries': 0, 'refused': 0, 'cells': 0, 'nontrivial': set(), 'path_roundtrips': 0, 'pg_judged': 0}
+    counters = {'queries': 0, 'refused': 0, 'cells': 0, 'nontrivial': set(), 'path_roundtrips': 0, 'pg_judged': 0, 'statements': 0, 'assumed': 0}
     for mode in ('json1', 'fallback'):
         jc = JsonChecker(ctx, t, mode, counters)
         try:
             jc.run()
         finally:
             jc.close()
+            counters['statements'] += jc.runner.executed
+            counters['assumed'] += jc.runner.assumed
         for which in ('int', 'str'):
             ac = ArrayChecker(ctx, t, mode, counters, which)
             try:
                 ac.run()
             finally:
                 ac.close()
+                counters['statements'] += ac.runner.executed
     check_paths(ctx, t, counters)
     nontrivial = counters.pop('nontrivial')
     ctx.sample({'document': py(t['docs'][len(t['docs']) // 2]), 'keys': [py(k) for k in t['keys'][len(t['keys']) // 2]]})
@@ -599,6 +613,7 @@ def run(ctx):
                 'the addressed value or array length, expected answer) combinations where Python defines the answer',
         'exhaustive': True,
         'queries_executed': counters['queries'], 'queries_refused_by_pony': counters['refused'],
+        'statements_executed': counters['statements'], 'failing_rows_assumed_from_their_group': counters['assumed'],
         'documents': len(t['docs']), 'key_sequences': len(t['keys']), 'int_arrays': len(t['intarrs']), 'str_arrays': len(t['strarrs']),
         'oracle_cells_checked_against_cpython': checked,
         'path_key_sequences': counters['path_roundtrips'], 'pg_literals_judged': counters['pg_judged'],
@@ -611,6 +626,8 @@ def run(ctx):
         'stored values are containers (dict/list) of nesting depth <= 2; top-level scalar documents are not covered',
         'where Python raises on the decoded value the condition is not compared; a selected missing path must be None',
         'membership is tested with string keys/items only (pony refuses other constants)',
+        'when a statement fails, it is re-run per group of documents on which the path behaves alike and then per row; after two '
+        'rows of a group failed identically (and none succeeded) the other rows of the group are taken to fail the same way',
     ]
 
 
